@@ -448,10 +448,25 @@ class Session:
         if k == "eq":
             a, b = self.evaluate(e[1], env), self.evaluate(e[2], env)
             return self.num(a) == self.num(b)
+        if k == "rel":
+            a, b = self.num(self.evaluate(e[2], env)), self.num(self.evaluate(e[3], env))
+            if a is None or b is None:
+                raise MatlabError("relational operator on a non-numeric value")
+            return {"<": a < b, ">": a > b, "<=": a <= b, ">=": a >= b}[e[1]]
+        if k == "arith":
+            a, b = self.num(self.evaluate(e[2], env)), self.num(self.evaluate(e[3], env))
+            if a is None or b is None:
+                raise MatlabError("arithmetic on a non-numeric value")
+            r = {"+": a + b, "-": a - b, "*": a * b}[e[1]]
+            return ("int-literal", r) if isinstance(r, int) else MDouble.scalar(r)
         if k == "name":
             name = e[1]
             if name in env:
                 return env[name]
+            if name in ("true", "false"):
+                return name == "true"
+            if name in self.file_locals(env) or name in ("nargin", "nargout"):
+                return self.call_builtin(name, [], env)
             if "." in name:
                 head, _, prop = name.partition(".")
                 if head in env and isinstance(env[head], MObject):
@@ -476,7 +491,7 @@ class Session:
                 else:
                     args.append(v)
             return self.call_builtin(fn, args, env)
-        raise MatlabError("cannot evaluate %r" % (e,))
+        raise InterpreterLimit("cannot evaluate %r" % (e,))
 
     @staticmethod
     def truth(v):
@@ -506,9 +521,75 @@ class Session:
             return v
         return None
 
+    @staticmethod
+    def file_locals(env):
+        return env.get("__locals") or {}
+
     def call_builtin(self, fn, args, env):
+        if fn in self.file_locals(env):
+            g = self.file_locals(env)[fn]
+            outs = self.call_function(g, args, env.get("__nlhs", 1), locals_=self.file_locals(env))
+            nl = env.get("__nlhs", 1)
+            if nl <= 1:
+                return outs[0] if outs else None
+            return ("outs", outs)
         if fn == "isa":
             return self.isa(args[0], args[1].s)
+        if fn in ("numel",):
+            if isinstance(args[0], list):
+                return ("int-literal", len(args[0]))
+            m, n = args[0].dims()
+            return ("int-literal", m * n)
+        if fn == "isempty":
+            if isinstance(args[0], list):
+                return len(args[0]) == 0
+            m, n = args[0].dims()
+            return m * n == 0
+        if fn == "isnumeric":
+            return self.isa(args[0], "numeric")
+        if fn == "isfloat":
+            return isinstance(args[0], MDouble)
+        if fn == "ischar":
+            return isinstance(args[0], MChar)
+        if fn == "islogical":
+            return isinstance(args[0], MLogical)
+        if fn == "iscell":
+            return isinstance(args[0], (MCell, list))
+        if fn == "isobject":
+            return isinstance(args[0], MObject)
+        if fn == "isscalar":
+            if isinstance(args[0], list):
+                return len(args[0]) == 1
+            return args[0].dims() == (1, 1)
+        if fn == "not":
+            return not self.truth(args[0])
+        if fn in ("and", "or"):
+            a, b = self.truth(args[0]), self.truth(args[1])
+            return (a and b) if fn == "and" else (a or b)
+        if fn == "class":
+            v = args[0]
+            if isinstance(v, MObject):
+                return MChar(v.cls)
+            if isinstance(v, MEnum):
+                return MChar(v.cls)
+            for cls, name in ((MDouble, "double"), (MChar, "char"), (MLogical, "logical"), (MCell, "cell")):
+                if isinstance(v, cls):
+                    return MChar(name)
+            return MChar(getattr(v, "kind", "uint64"))
+        if fn == "isequal":
+            a, b = args[0], args[1]
+            if isinstance(a, MChar) or isinstance(b, MChar):
+                return isinstance(a, MChar) and isinstance(b, MChar) and a.s == b.s
+            return self.num(a) is not None and self.num(a) == self.num(b)
+        if fn == "nargin" and "nargin" in env:
+            return env["nargin"]
+        if fn == "nargout":
+            return ("int-literal", env.get("__nargout", 1))
+        if fn == "double":
+            v = self.num(args[0])
+            if v is None:
+                raise MatlabError("double() of a non-numeric value")
+            return MDouble.scalar(float(v))
         if fn == "strcmp":
             return isinstance(args[0], MChar) and isinstance(args[1], MChar) and args[0].s == args[1].s
         if fn == "length":
@@ -525,6 +606,8 @@ class Session:
         if fn == self.wrapper:
             conv = [MDouble.scalar(a[1]) if isinstance(a, tuple) and a[0] == "int-literal" else a for a in args]
             return ("outs", self.gateway(env.get("__nlhs", 1), conv))
+        if fn in KNOWN_MATLAB:
+            raise InterpreterLimit("MATLAB function %s is not implemented by the simulated session" % fn)
         raise MatlabError("Undefined function '%s'" % fn)
 
     # -- executing function bodies ------------------------------------------------------
@@ -540,11 +623,32 @@ class Session:
                         break
                 if not done and st[2] is not None:
                     self.run_body(st[2], env)
+            elif k == "switch":
+                subj = self.evaluate(st[1], env)
+                done = False
+                for labels, body in st[2]:
+                    for lab in labels:
+                        lv = self.evaluate(lab, env)
+                        if isinstance(subj, MChar) or isinstance(lv, MChar):
+                            hit = isinstance(subj, MChar) and isinstance(lv, MChar) and subj.s == lv.s
+                        else:
+                            hit = self.num(subj) is not None and self.num(subj) == self.num(lv)
+                        if hit:
+                            break
+                    else:
+                        continue
+                    self.run_body(body, env)
+                    done = True
+                    break
+                if not done and st[3] is not None:
+                    self.run_body(st[3], env)
             elif k == "return":
                 raise _Return()
             elif k == "error":
-                msg = st[1][2][0]
-                raise MatlabError(msg[1] if msg[0] == "str" else "error")
+                eargs = st[1][2]
+                strs = [a[1] for a in eargs if a[0] == "str"]
+                # error(msg) / error(id, fmt, ...): report the last literal (the message or its format)
+                raise MatlabError(strs[-1] if strs else "error")
             elif k == "expr":
                 e = st[1]
                 if e[0] == "supercall":
@@ -571,7 +675,7 @@ class Session:
                         v = MDouble.scalar(v[1])
                     self.assign(lhs[0], v, env)
             else:
-                raise MatlabError("unsupported statement %r" % (st,))
+                raise InterpreterLimit("unsupported statement %r" % (st,))
 
     def assign(self, target, val, env):
         if target[0] == "name":
@@ -596,7 +700,7 @@ class Session:
                 out.append(None)
             out[i - 1] = val
             return
-        raise MatlabError("unsupported assignment target %r" % (target,))
+        raise InterpreterLimit("unsupported assignment target %r" % (target,))
 
     def supercall(self, e, env):
         obj = env[e[1]]
@@ -609,12 +713,28 @@ class Session:
             raise MatlabError("superclass %s is not defined in the toolbox" % parent)
         self.run_ctor(parent, obj, args)
 
+    def bind(self, fn, vals, locals_=None):
+        """MATLAB argument binding: named parameters positionally, `varargin` takes the rest"""
+        env = {"nargin": ("int-literal", len(vals)), "__locals": locals_ or {}}
+        params = list(fn.params)
+        for i, p in enumerate(params):
+            if p == "varargin":
+                env["varargin"] = list(vals[i:])
+                break
+            if i < len(vals):
+                env[p] = vals[i]
+        else:
+            if len(vals) > len(params):
+                raise MatlabError("Too many input arguments.")
+        return env
+
     def run_ctor(self, cname, obj, args):
         cd = self.classes[cname]
         fn = cd.methods.get(cd.name)
         if fn is None:
             return
-        env = {"nargin": ("int-literal", len(args)), "varargin": list(args), "obj": obj}
+        env = self.bind(fn, list(args), cd.local_functions)
+        env[fn.outs[0] if fn.outs else "obj"] = obj      # the object under construction is the output variable
         try:
             self.run_body(fn.body, env)
         except _Return:
@@ -643,7 +763,7 @@ class Session:
         for cname in self.ancestors(obj.cls):
             fn = self.classes[cname].methods.get("delete")
             if fn is not None:
-                env = {"nargin": ("int-literal", 1), "obj": obj, "varargin": []}
+                env = self.bind(fn, [obj], self.classes[cname].local_functions)
                 try:
                     self.run_body(fn.body, env)
                 except _Return:
@@ -663,29 +783,31 @@ class Session:
                 return cname, fn
         return None, None
 
-    def call_function(self, fn, args, nargout, this=None):
-        env = {"nargin": ("int-literal", len(args) + (1 if this is not None else 0)),
-               "varargin": list(args), "varargout": []}
-        if this is not None:
-            env["this"] = this
+    def call_function(self, fn, args, nargout, this=None, locals_=None):
+        if locals_ is None:
+            locals_ = getattr(fn, "local_functions", None) or {}
+        env = self.bind(fn, ([this] if this is not None else []) + list(args), locals_)
+        env["__nargout"] = nargout
         try:
             self.run_body(fn.body, env)
         except _Return:
             pass
-        outs = env.get("varargout", [])
-        return outs
+        if "varargout" in fn.outs:
+            named = [env[o] for o in fn.outs if o != "varargout" and o in env]
+            return named + list(env.get("varargout", []))
+        return [env[o] for o in fn.outs if o in env]
 
     def call_method(self, obj, name, args):
         cname, fn = self.find_method(obj, name)
         if fn is None:
             raise MatlabError("No method '%s' for class %s" % (name, obj.cls))
-        return self.call_function(fn, args, 1, this=obj)
+        return self.call_function(fn, args, 1, this=obj, locals_=self.classes[cname].local_functions)
 
     def call_static(self, cname, name, args):
         fn = self.classes[cname].statics.get(name)
         if fn is None:
             raise MatlabError("No static method %s.%s" % (cname, name))
-        return self.call_function(fn, args, 1)
+        return self.call_function(fn, args, 1, locals_=self.classes[cname].local_functions)
 
     def call_free(self, fname, args):
         fn = self.functions.get(fname)
@@ -697,7 +819,7 @@ class Session:
         for cname in self.ancestors(obj.cls):
             fn = self.classes[cname].getters.get(prop)
             if fn is not None:
-                outs = self.call_function(fn, [], 1, this=obj)
+                outs = self.call_function(fn, [], 1, this=obj, locals_=self.classes[cname].local_functions)
                 return outs[0] if outs else None
         raise MatlabError("No property " + prop)
 
@@ -705,7 +827,7 @@ class Session:
         for cname in self.ancestors(obj.cls):
             fn = self.classes[cname].setters.get(prop)
             if fn is not None:
-                env = {"nargin": ("int-literal", 2), "this": obj, "value": value, "varargin": []}
+                env = self.bind(fn, [obj, value], self.classes[cname].local_functions)
                 try:
                     self.run_body(fn.body, env)
                 except _Return:
@@ -727,6 +849,25 @@ class Session:
             raise ProtocolFailure(r)
         self.read_trace_state()
         return int(r.split()[1])
+
+
+class InterpreterLimit(Exception):
+    """the generated .m code uses MATLAB this subset interpreter does not implement: a harness limitation,
+    never a verdict about the code under test"""
+
+
+# names MATLAB itself defines: a call to one of these that reaches the end of call_builtin is a limit of this
+# interpreter; a call to any other undefined name is what MATLAB would report, too
+KNOWN_MATLAB = set("""
+validateattributes narginchk nargoutchk inputname cellfun arrayfun any all ismember strcmpi strncmp strncmpi sprintf
+fprintf disp display warning assert exist isfield struct cell zeros ones ndims columns rows isvector ismatrix isreal
+isinteger int8 int16 int32 int64 uint8 uint16 uint32 single logical char num2str mat2str func2str str2func feval builtin
+subsref subsasgn isprop ismethod metaclass properties methods fieldnames horzcat vertcat cat repmat reshape floor ceil
+round mod rem abs min max sum find strrep regexp regexprep strsplit strjoin upper lower strtrim isspace iskeyword
+isvarname tic toc clock now datestr rethrow MException inputParser isstring string strlength contains startsWith
+endsWith numArgumentsFromSubscript end deal isrow iscolumn isnan isinf ishandle isvalid getfield setfield cast typecast
+bitand bitor bitshift idivide error lasterr evalin eval assignin mfilename which func handle
+""".split())
 
 
 class MPropRef(MVal):
